@@ -481,7 +481,7 @@ func execLad(f []string) vlib.Res {
 		s := qspec{name: "pos.gone." + a["nm"] + "-@.zt.", qtype: dns.TypeA, qclass: dns.ClassINET, id: 77, rd: true, cd: cd, edns: true, usz: 1232}
 		if a["ex"] == "1" {
 			for p := 0; p < 3; p++ {
-				live.Raw(s.build(markers[p], nil, nil), remoteFor(p, "tcp", false, 60000+n))
+				rawSettled(s.build(markers[p], nil, nil), remoteFor(p, "tcp", false, 60000+n))
 			}
 		}
 		seedState(map[string]string{"cut": a["cut"], "fail": strings.ReplaceAll(a["fail"], "-", "")}, names, dns.TypeA, cd)
